@@ -46,7 +46,13 @@ CONSTANTS MinBodies, MaxBodies,
           Gravs,       \* gravity vectors
           DisSets,     \* sets of disabled features, subsets of {"spring", "damper", "gravity"}
           TenK, TenRanges, TenDamps, TenArms,
+          TenZero,     \* subset of BOOLEAN: TRUE = every other joint is wrapped by the fixed tendon with coefficient 0
+          SpPairs,     \* spatial tendon <<b1, b2>>: straight segment between the sites of two bodies (0 = world site,
+                       \* at the origin); <<0, 0>> = none.  It exists only where its length is a positive integer.
+          SpArms,      \* its armature
           Level,       \* 1: kinematics only, 2: + mass matrix and dynamics, 3: + passive forces and energy
+          Tie,         \* TRUE (enumeration only): a body has its joint anchor and its inertial frame both at the body
+                       \* origin or neither (keeps the exhaustive lattices small while covering MuJoCo's "simple" bodies)
           Rand         \* FALSE: every choice is enumerated (model checking); TRUE: every choice is drawn at random
                        \* (simulation of the large lattices: one successor per step instead of thousands)
 
@@ -132,9 +138,10 @@ Init == /\ stage = "A" /\ B = << >> /\ part = << >> /\ glob = << >> /\ tree = <<
 \* choices that do not apply are normalised (a jointless body has no joint parameters); when enumerating, the
 \* duplicates are pruned by the guard
 Pick(S) == IF Rand THEN {RandomElement(S)} ELSE S
+Canon(S) == CHOOSE x \in S : TRUE          \* the one choice that is enumerated where the choice does not matter
 PickA(par, jt, ax, pos, rot, janc, spos, srot) ==
   /\ n < MaxBodies
-  /\ (~Rand /\ jt = "none") => (ax = 1 /\ janc = Z3)
+  /\ (~Rand /\ jt = "none") => (ax = Canon(Axes) /\ janc = Canon(Anchors))
   /\ part' = [par |-> par, jt |-> jt, ax |-> IF jt = "none" THEN 1 ELSE ax, pos |-> pos, rot |-> rot,
               janc |-> IF jt = "none" THEN Z3 ELSE janc, spos |-> spos, srot |-> srot]
   /\ stage' = "B"
@@ -145,7 +152,8 @@ TenTypeOK(jt, tc) == tc # 0 => \A j \in 1..n : B[j].tc # 0 => B[j].jt = jt
 PickB(m, inr, ipos, arm, k, qref, damp, gc, tc) ==
   LET nj == part.jt = "none"
       tcOK == ~nj /\ TenTypeOK(part.jt, tc) IN
-  /\ (~Rand /\ nj) => (arm = 0 /\ k = 0 /\ qref = 0 /\ damp = 0 /\ tc = 0)
+  /\ (~Rand /\ nj) => (arm = Canon(Arms) /\ k = Canon(Stiffs) /\ qref = Canon(Refs) /\ damp = Canon(Damps) /\ tc = Canon(TCoefs))
+  /\ (~Rand /\ Tie) => ((part.janc = Z3) <=> (ipos = Z3))
   /\ ~Rand => TenTypeOK(part.jt, tc)
   /\ part' = part @@ [mass |-> m, inr |-> inr, ipos |-> ipos, arm |-> IF nj THEN 0 ELSE arm, k |-> IF nj THEN 0 ELSE k,
                       qref |-> IF nj THEN 0 ELSE qref, damp |-> IF nj THEN 0 ELSE damp,
@@ -155,20 +163,26 @@ PickB(m, inr, ipos, arm, k, qref, damp, gc, tc) ==
 
 PickC(q, v, a) ==
   LET nj == part.jt = "none" IN
-  /\ (~Rand /\ nj) => (q = 0 /\ v = 0 /\ a = 0)
+  /\ (~Rand /\ nj) => (q = Canon(Qs) /\ v = Canon(Vs) /\ a = Canon(As))
   /\ B' = Append(B, part @@ [q |-> IF nj THEN 0 ELSE q, v |-> IF nj THEN 0 ELSE v, a |-> IF nj THEN 0 ELSE a])
   /\ part' = << >>
   /\ stage' = "A"
   /\ UNCHANGED <<glob, tree, kin, fd, vel, mass, dyn, pas, en, ev>>
 
 HasTendon == \E j \in 1..n : B[j].tc # 0
-PickG(g, dis, tk, tr, td, ta) ==
-  LET ht == HasTendon IN
+NoSp == <<0, 0>>
+SpValid(sp) == sp = NoSp \/ (sp[1] # sp[2] /\ sp[1] <= n /\ sp[2] <= n)
+PickG(g, dis, tk, tr, td, ta, tz, sp0, sa) ==
+  LET ht == HasTendon
+      sp == IF Rand /\ (~SpValid(sp0) \/ sa = 0) THEN NoSp ELSE sp0 IN
   /\ n >= MinBodies
-  /\ (~Rand /\ ~ht) => (tk = 0 /\ td = 0 /\ ta = 0 /\ tr = <<0, 0>>)
+  /\ (~Rand /\ ~ht) => (tk = 0 /\ td = 0 /\ ta = 0 /\ tr = <<0, 0>> /\ ~tz)
   /\ tr[1] <= tr[2]
+  /\ SpValid(sp)
+  /\ ~Rand => ((sp = NoSp) <=> (sa = 0))
   /\ glob' = [g |-> g, dis |-> dis, tk |-> IF ht THEN tk ELSE 0, trange |-> IF ht THEN tr ELSE <<0, 0>>,
-              tdamp |-> IF ht THEN td ELSE 0, tarm |-> IF ht THEN ta ELSE 0]
+              tdamp |-> IF ht THEN td ELSE 0, tarm |-> IF ht THEN ta ELSE 0, tz |-> ht /\ tz,
+              sp |-> sp, sarm |-> IF sp = NoSp THEN 0 ELSE sa]
   /\ tree' = [anc |-> [b \in 1..n |-> AncOf(B, b)], dofs |-> SelectSeq([i \in 1..n |-> i], HasJ)]
   /\ stage' = "kin"
   /\ UNCHANGED <<B, part, kin, fd, vel, mass, dyn, pas, en, ev>>
@@ -297,6 +311,22 @@ KaneTau(a) ==
                           ELSE Dot(JPcol(i, kin[b].c), kb[b].F) + Dot(JRcol(i), kb[b].N)], n)]
 
 \* ------------------------------------------------------------------------------------------------
+\* Spatial tendon: a straight segment between two sites.  length L = |x1 - x2|, Jacobian J_t = (x1 - x2).(J1 - J2) / L.
+\* Only configurations with an integer length 0 < L <= 7 carry the tendon (rational arithmetic, denominators L^2, L^4).
+\* Armature m adds m J_t' J_t to M, m (L')^2 / 2 to the kinetic energy, and the bias force m J_t' (Jdot_t . v), where
+\* Jdot_t . v = L'' at zero acceleration = (|dv|^2 - (L')^2) / L + (x1 - x2).(a1 - a2) / L.
+\* ------------------------------------------------------------------------------------------------
+WSite == Z3
+SpPos(b) == IF b = 0 THEN WSite ELSE kin[b].sp
+JPx(b, x, j) == IF b = 0 THEN Z3 ELSE JP(b, x, j)                   \* the world does not move
+JRx(b, j)    == IF b = 0 THEN Z3 ELSE JR(b, j)
+SqrtOf(x) == IF \E r \in 1..7 : r * r = x THEN CHOOSE r \in 1..7 : r * r = x ELSE 0
+SpD(K) == VSub(IF glob.sp[1] = 0 THEN WSite ELSE K[glob.sp[1]].sp, IF glob.sp[2] = 0 THEN WSite ELSE K[glob.sp[2]].sp)
+SpLen == IF glob.sp = NoSp THEN 0 ELSE SqrtOf(Dot(SpD(kin), SpD(kin)))
+\* L * J_t[j]
+SpNum(j) == Dot(SpD(kin), VSub(JPx(glob.sp[1], SpPos(glob.sp[1]), j), JPx(glob.sp[2], SpPos(glob.sp[2]), j)))
+
+\* ------------------------------------------------------------------------------------------------
 \* Mass : M by definition
 \* ------------------------------------------------------------------------------------------------
 MbEntry(i, j) == SumN([b \in 1..n |-> IF i \in Anc(b) /\ j \in Anc(b)
@@ -305,9 +335,14 @@ MbEntry(i, j) == SumN([b \in 1..n |-> IF i \in Anc(b) /\ j \in Anc(b)
                                        ELSE 0], n)
 Mass ==
   /\ LET Mb == [i \in 1..n |-> [j \in 1..n |-> IF HasJ(i) /\ HasJ(j) THEN MbEntry(i, j) ELSE 0]]
-     IN mass' = [Mb |-> Mb,
-                 M  |-> [i \in 1..n |-> [j \in 1..n |-> Mb[i][j] + (IF i = j THEN B[i].arm ELSE 0)
-                                                         + glob.tarm * B[i].tc * B[j].tc]]]
+         M  == [i \in 1..n |-> [j \in 1..n |-> Mb[i][j] + (IF i = j THEN B[i].arm ELSE 0)
+                                                 + glob.tarm * B[i].tc * B[j].tc]]
+         L  == SpLen
+         sn == [j \in 1..n |-> IF L > 0 /\ HasJ(j) THEN SpNum(j) ELSE 0]
+     IN mass' = [Mb |-> Mb, M |-> M,
+                 spL |-> L, spn |-> sn,                                   \* spatial tendon: length (0 = absent), L * J_t
+                 \* L^2 * (M + spatial tendon armature)   (equals M when the tendon is absent: L taken as 1)
+                 Msp |-> [i \in 1..n |-> [j \in 1..n |-> (IF L > 0 THEN L * L ELSE 1) * M[i][j] + glob.sarm * sn[i] * sn[j]]]]
   /\ stage' = "dyn"
   /\ UNCHANGED <<B, part, glob, tree, kin, fd, vel, dyn, pas, en, ev>>
 
@@ -319,6 +354,15 @@ Kin2 == SumN([b \in 1..n |-> B[b].mass * Dot(vel[b].vc, vel[b].vc) + Dot(vel[b].
                               + B[b].arm * B[b].v * B[b].v], n)
         + glob.tarm * SumN([j \in 1..n |-> B[j].tc * B[j].v], n) * SumN([j \in 1..n |-> B[j].tc * B[j].v], n)
 
+\* spatial tendon: W = L^3 * L'' at zero acceleration = L^2 |dv|^2 - (d.dv)^2 + L^2 d.(a1 - a2)
+SiteVel(b)  == IF b = 0 THEN Z3 ELSE vel[b].vs
+SiteAcc0(b) == IF b = 0 THEN Z3 ELSE VSumN([j \in 1..n |-> VScl(B[j].v, JdP(b, kin[b].sp, vel[b].vs, j))], n)
+SpW == LET d  == SpD(kin)
+           dv == VSub(SiteVel(glob.sp[1]), SiteVel(glob.sp[2]))
+           da == VSub(SiteAcc0(glob.sp[1]), SiteAcc0(glob.sp[2]))
+           L2 == mass.spL * mass.spL
+       IN L2 * Dot(dv, dv) - Dot(d, dv) * Dot(d, dv) + L2 * Dot(d, da)
+
 \* Dyn : bias force (acceleration zero), Newton-Euler with the chosen acceleration, both derivations, and the bias
 \*       one velocity step forth / back per dof (its central difference is the exact velocity derivative)
 Dyn ==
@@ -329,6 +373,10 @@ Dyn ==
              tauR  |-> TauOf(fs),
              fs    |-> fs,
              kin2  |-> Kin2,
+             \* spatial tendon: L^2 * (twice the kinetic energy), and W = L^3 * (Jdot_t . v)
+             kin2sp |-> (IF mass.spL > 0 THEN mass.spL * mass.spL ELSE 1) * Kin2
+                        + glob.sarm * SumN([j \in 1..n |-> mass.spn[j] * B[j].v], n) * SumN([j \in 1..n |-> mass.spn[j] * B[j].v], n),
+             spW   |-> IF mass.spL > 0 THEN SpW ELSE 0,
              biasP |-> [b \in 1..n |-> IF HasJ(b) THEN RecTau(Bump(VOf, b, 1), ZeroN) ELSE << >>],
              biasM |-> [b \in 1..n |-> IF HasJ(b) THEN RecTau(Bump(VOf, b, -1), ZeroN) ELSE << >>]]
   /\ stage' = IF Level >= 3 THEN "pas" ELSE "fin"
@@ -396,17 +444,41 @@ SubMass(b) == SumN([c \in 1..n |-> IF b \in Anc(c) THEN B[c].mass ELSE 0], n)
 SubMom(b)  == VSumN([c \in 1..n |-> IF b \in Anc(c) THEN VScl(B[c].mass, kin[c].c) ELSE Z3], n)
 SubJac(b)  == [d \in 1..nv |-> VSumN([c \in 1..n |-> IF b \in Anc(c) THEN VScl(B[c].mass, JP(c, kin[c].c, Dofs[d])) ELSE Z3], n)]
 
+SpL2 == IF mass.spL > 0 THEN mass.spL * mass.spL ELSE 1
+\* L^4 * (bias + tendon bias),  L^4 * (M_total a + bias_total)
+SpBiasNum == [i \in 1..n |-> SpL2 * SpL2 * dyn.bias[i] + glob.sarm * mass.spn[i] * dyn.spW]
+SpInvNum  == LET Ma == MatVecN(mass.Msp, AOf) IN [i \in 1..n |-> SpL2 * Ma[i] + SpBiasNum[i]]
+\* Constraint rows of connect / weld equalities between the sites of two bodies (0 = world, site at the origin):
+\* position residual x1 - x2, its Jacobian J1 - J2 (difference of the point Jacobians), and the difference of the
+\* rotation Jacobians; for every ordered pair of distinct bodies, world included.
+Pairs == {pr \in (0..n) \X (0..n) : pr[1] # pr[2]}
+PairSeq == LET RECURSIVE Enum(_, _)
+               Enum(i, j) == IF i > n THEN << >>
+                             ELSE IF j > n THEN Enum(i + 1, 0)
+                             ELSE IF i = j THEN Enum(i, j + 1)
+                             ELSE <<<<i, j>>>> \o Enum(i, j + 1)
+           IN Enum(0, 0)
+SitePosOf(K, b) == IF b = 0 THEN WSite ELSE K[b].sp
+Movable(b) == b # 0 /\ \E j \in 1..n : HasJ(j) /\ j \in Anc(b)
+PairRow(pr) == [b1 |-> pr[1], b2 |-> pr[2],
+                mov |-> Movable(pr[1]) \/ Movable(pr[2]),          \* MuJoCo rejects an equality between two static bodies
+                pos |-> VSub(SitePosOf(kin, pr[1]), SitePosOf(kin, pr[2])),
+                jacp |-> [d \in 1..nv |-> VSub(JPx(pr[1], SitePosOf(kin, pr[1]), Dofs[d]), JPx(pr[2], SitePosOf(kin, pr[2]), Dofs[d]))],
+                jacr |-> [d \in 1..nv |-> VSub(JRx(pr[1], Dofs[d]), JRx(pr[2], Dofs[d]))]]
 EvKin == [op |-> "model", n |-> n, nv |-> nv, dofs |-> Dofs, bodies |-> B, glob |-> glob, level |-> Level,
           hinge |-> [d \in 1..nv |-> IsH(Dofs[d])],
           \* an armature-bearing tendon couples two dofs on different branches (M then has entries off the tree pattern)
-          xten |-> (glob.tarm # 0 /\ \E i, j \in 1..n : B[i].tc # 0 /\ B[j].tc # 0 /\ i \notin Anc(j) /\ j \notin Anc(i)),
+          xten |-> \/ (glob.tarm # 0 /\ \E i, j \in 1..n : B[i].tc # 0 /\ B[j].tc # 0 /\ i \notin Anc(j) /\ j \notin Anc(i))
+                   \/ (Level >= 2 /\ glob.sarm # 0 /\ \E i, j \in 1..n : mass.spn[i] # 0 /\ mass.spn[j] # 0
+                                                                        /\ i \notin Anc(j) /\ j \notin Anc(i)),
           kin |-> kin,
           fdp |-> ByDof([b \in 1..n |-> IF HasJ(b) THEN fd[b].p ELSE << >>]),
           fdm |-> ByDof([b \in 1..n |-> IF HasJ(b) THEN fd[b].m ELSE << >>]),
           jacp |-> [b \in 1..n |-> JacP(b, kin[b].p)], jacr |-> [b \in 1..n |-> JacR(b)],
           jacc |-> [b \in 1..n |-> JacP(b, kin[b].c)], jacs |-> [b \in 1..n |-> JacP(b, kin[b].sp)],
           submass |-> [b \in 1..n |-> SubMass(b)], submom |-> [b \in 1..n |-> SubMom(b)],
-          subjac |-> [b \in 1..n |-> SubJac(b)]]
+          subjac |-> [b \in 1..n |-> SubJac(b)],
+          pairs |-> [k \in 1..Len(PairSeq) |-> PairRow(PairSeq[k])]]
 EvDyn == [vel |-> vel,
           jdp |-> [b \in 1..n |-> JacDP(b, kin[b].p, vel[b].vo)], jdr |-> [b \in 1..n |-> JacDR(b)],
           jdc |-> [b \in 1..n |-> JacDP(b, kin[b].c, vel[b].vc)],
@@ -416,6 +488,10 @@ EvDyn == [vel |-> vel,
           bias |-> ByDof(dyn.bias), rnea |-> ByDof(dyn.tauK),
           inv |-> ByDof(VecAddN(MatVecN(mass.M, AOf), dyn.bias)),
           kin2 |-> dyn.kin2,
+          \* spatial tendon (spL = 0: absent).  Msp, Mvsp, kin2sp over L^2;  biassp, invsp over L^4
+          spL |-> mass.spL, spn |-> ByDof(mass.spn), Msp |-> MatByDof(mass.Msp),
+          Mvsp |-> ByDof(MatVecN(mass.Msp, VOf)), kin2sp |-> dyn.kin2sp,
+          biassp |-> ByDof(SpBiasNum), invsp |-> ByDof(SpInvNum),
           cacc |-> [b \in 1..n |-> [al |-> dyn.fs[b].al, ao |-> dyn.fs[b].ao]]]
 EvPas == [spring |-> ByDof(pas.spring), damper |-> ByDof(pas.damper), gravcomp |-> ByDof(pas.gravcomp),
           pasA |-> ByDof(pas.totA), pasB |-> ByDof(pas.totB), tlen |-> pas.tlen, tvel |-> pas.tvel,
@@ -437,7 +513,8 @@ DoPickB == stage = "B" /\ \E m \in Pick(Masses), inr \in Pick(Inertias), ipos \i
                               PickB(m, inr, ipos, arm, k, qref, damp, gc, tc)
 DoPickC == stage = "C" /\ \E q \in Pick(Qs), v \in Pick(Vs), a \in Pick(As) : PickC(q, v, a)
 DoPickG == stage = "A" /\ \E g \in Pick(Gravs), dis \in Pick(DisSets), tk \in Pick(TenK), tr \in Pick(TenRanges),
-                              td \in Pick(TenDamps), ta \in Pick(TenArms) : PickG(g, dis, tk, tr, td, ta)
+                              td \in Pick(TenDamps), ta \in Pick(TenArms), tz \in Pick(TenZero), sp \in Pick(SpPairs),
+                              sa \in Pick(SpArms) : PickG(g, dis, tk, tr, td, ta, tz, sp, sa)
 DoKin     == stage = "kin"  /\ Kin
 DoFd      == stage = "fd"   /\ Fd
 DoVel     == stage = "vel"  /\ Vel
@@ -486,6 +563,12 @@ SubtreeJacIsDerivative ==
      VSumN([c \in 1..n |-> IF c \in Sub(b) THEN VScl(B[c].mass, VSub(fd[j].p[c].c, fd[j].m[c].c)) ELSE Z3], n)
        = VScl(2, VSumN([c \in 1..n |-> IF c \in Sub(b) THEN VScl(B[c].mass, JP(c, kin[c].c, j)) ELSE Z3], n))
 
+\* constraint rows: the Jacobian of a connect / weld equality is the derivative of its position residual
+ConstraintJacIsDerivative ==
+  Done => \A pr \in Pairs, j \in DofB :
+            VSub(VSub(SitePosOf(fd[j].p, pr[1]), SitePosOf(fd[j].p, pr[2])), VSub(SitePosOf(fd[j].m, pr[1]), SitePosOf(fd[j].m, pr[2])))
+              = VScl(2, VSub(JPx(pr[1], SitePosOf(kin, pr[1]), j), JPx(pr[2], SitePosOf(kin, pr[2]), j)))
+
 \* ---- C06 : inertia, bias, Newton-Euler -----------------------------------------------------------------
 MSymmetric == L2 => \A i, j \in 1..n : mass.M[i][j] = mass.M[j][i]
 \* zero pattern: bodies on different branches are inertially decoupled (tendon armature couples its joints)
@@ -522,6 +605,17 @@ BiasAtRestIsGravity ==
 \* velocity-independent bias
 SlideBiasVelFree ==
   L2 => ((\A b \in 1..n : ~IsH(b)) => \A j \in DofB : dyn.biasP[j] = dyn.bias /\ dyn.biasM[j] = dyn.bias)
+
+\* spatial tendon: along slides the squared length is quadratic, so its central difference is exact:
+\*   L^2(q + e_j) - L^2(q - e_j) = 4 L (L J_t[j]) / L = 4 (x1 - x2).(J1 - J2)_j
+SpatialJacIsDerivative ==
+  L2 => (mass.spL > 0 => \A j \in DofB : IsS(j) =>
+           Dot(SpD(fd[j].p), SpD(fd[j].p)) - Dot(SpD(fd[j].m), SpD(fd[j].m)) = 4 * mass.spn[j])
+\* the total inertia (with tendon armatures) stays symmetric positive definite, and 2 E_kin = v' M v
+SpatialMassOK ==
+  L2 => /\ \A i, j \in 1..n : mass.Msp[i][j] = mass.Msp[j][i]
+        /\ \A x \in ProbeVecs : Quad(mass.Msp, x) > 0
+        /\ dyn.kin2sp = Quad(mass.Msp, VOf)
 
 \* ---- C29 : passive forces ------------------------------------------------------------------------------
 \* spring force = - gradient of the reported potential (exact central difference; tendon dead band: same zone)
@@ -563,6 +657,10 @@ One1 == {1}
 V000 == {<<0, 0, 0>>}
 R0 == {<<1, 0>>}
 NoDis == {{}}
+NoSpS == {<<0, 0>>}
+NoTz == {FALSE}
+BothTz == {FALSE, TRUE}
+OnlyTz == {TRUE}
 Rng0 == {<<0, 0>>}
 \* geometry-rich sets (C07)
 K_Off1 == {<<1, 0, 2>>}
@@ -570,6 +668,8 @@ K_Off == {<<1, 0, 2>>, <<0, -1, 0>>, <<-2, 1, 1>>, <<0, 0, 0>>}
 K_Rot2 == {<<1, 0>>, <<2, 1>>}
 K_Rot == {<<1, 0>>, <<2, 1>>, <<3, 3>>, <<-1, 2>>, <<1, 1>>}
 K_Anc1 == {<<0, 1, 0>>}
+K_Anc2 == {<<0, 0, 0>>, <<0, 1, 0>>}
+K_IPos2 == {<<0, 0, 0>>, <<0, 0, 1>>}
 K_Anc == {<<0, 0, 0>>, <<0, 1, 0>>, <<1, -1, 2>>}
 K_Site1 == {<<1, 2, 3>>}
 K_Site == {<<1, 2, 3>>, <<0, 0, -1>>}
@@ -592,6 +692,16 @@ D_Mass == {1, 2}
 D_Arm == {0, 1, 3}
 D_TC == {0, 1, -1, 2}
 D_TArm == {0, 2}
+D_Sp1 == {<<0, 0>>, <<1, 2>>}
+D_Sp2 == {<<0, 0>>, <<1, 2>>, <<0, 2>>}
+D_Sp3 == {<<0, 0>>, <<2, 3>>, <<1, 3>>}
+D_OffMix == {<<0, 0, 2>>, <<3, 0, 0>>, <<0, -4, 0>>, <<0, 0, -3>>, <<1, 0, 2>>}
+D_Sp == {<<0, 0>>, <<1, 2>>, <<2, 3>>, <<3, 4>>, <<1, 3>>, <<0, 2>>, <<0, 3>>, <<0, 4>>, <<3, 1>>}
+D_SpArm == {0, 3}
+D_SpArm1 == {3}
+D_OffAx1 == {<<0, 0, 2>>}
+D_OffAx == {<<0, 0, 2>>, <<3, 0, 0>>, <<0, -4, 0>>, <<0, 0, -3>>}
+D_Site0 == {<<0, 0, 0>>, <<0, 0, 1>>}
 D_TArm1 == {2}
 D_TC2 == {0, 1}
 D_V1 == {2}
